@@ -21,16 +21,67 @@ T = {
          "body and boundary (consumed minus trailing data); covers fixed, chunked (all four decoder sub-states, extensions, folded trailers) and "
          "body-less framing; proved from resp_parse_spec / chunk_decode_app (chunk loop induction). Correspondence: per-call trace, fields, trailing "
          "data = delivered bytes after the boundary, all cuts of short chunked streams.",
-         "Trailing data equality with the delivered bytes is checked on the implementation and model by the run; the Coq statement fixes the boundary."),
+         "That the trailing data equals the delivered bytes after the boundary is proved for one call (C04_accept_sound) and checked per schedule by the run; the delivery theorem fixes the boundary."),
+ "C03": ("Theorems C03_accept_sound / C03_accept_complete / C03_grammar_unambiguous / C03_prefix_needs_more / C03_header_block_exact: Complete is reported "
+         "exactly on the request grammar of Spec/RequestGrammar.v + Spec/HeaderGrammar.v (written without reference to the parser), with method, target, "
+         "unfolded and trimmed header list and body exactly the grammar's elements and the boundary at their end; proper prefixes get 'more input'. "
+         "Partial: the category named for each kind of malformed input is not a separate theorem; the model's categories are compared with the crate on every case.",
+         "uri_parse is a parameter; the target is 'a valid URI reference' iff rhymuri accepts it."),
+ "C04": ("Theorems C04_accept_sound / C04_accept_complete / C04_prefix_needs_more: Complete exactly on the response grammar (Spec/ResponseGrammar.v) with the framing "
+         "order Content-Length, then chunked (IsChunked of C05, stored headers = the C12 rewriting), then none; trailing data = the bytes of the call after the "
+         "boundary, verbatim; nothing consumed beyond a chunked or body-less message. Partial as C03 for error categories.", ""),
+ "C05": ("Theorems C05_decodes_exactly (every IsChunked encoding -> exactly payload and trailers, stops at its end), C05_complete_only_if_wellformed (Complete => "
+         "IsChunked of the consumed bytes, body = concatenation of the declared data ranges), C05_grammar_unambiguous, C05_delivery_independent and "
+         "C05_decodes_exactly_under_any_delivery; induction on the chunk list / the decoder loop. Correspondence through Response::parse: generated encodings, "
+         "mutations and all strings up to length 4 (quick) / 6 (thorough) over a 10-symbol structural alphabet.",
+         "The trailer section is specified by reference to the header-block parser (whose grammar is Spec/HeaderGrammar.v, C03_header_block_exact); chunk extensions: any valid UTF-8 without CRLF."),
+ "C06": ("PARTIAL by nature. Proved on the model: consumed <= presented for all three parsers (slice ranges), body never longer than the declared length "
+         "(no usize underflow), the byte count saturates, str-slicing indices next to an ASCII delimiter of a UTF-8-valid line are char boundaries "
+         "(C06_slices_at_char_boundaries, for multi-byte text at any position). Runtime part: every case of the run executes under catch_unwind in a supervised "
+         "worker (process aborts are detected), with overflow checks on (dev) and off (release), numeric extremes 0..2^64+1, multi-byte text at every slicing position.",
+         "Panic-freedom inside rhymuri, flate2, encoding_rs and rhymessage's generator is only sampled (K4 is a known finding there); stack and allocator behaviour are runtime facts."),
+ "C07": ("PARTIAL by nature. Theorems C07_request_reserve_bounded / C07_chunk_reserves_bounded: every Vec::reserve the model performs asks for at most the bytes presented "
+         "to that call, for declared lengths 0..2^64-1; C07_*_growth: the body/chunk buffers grow by at most what the call consumed. Runtime part: a counting global "
+         "allocator measures the largest single request and the peak during each parse call; bound 4096+8*presented / 16384+24*presented; allocations above 1 GiB are refused so that an abort is observed.",
+         "Real allocator traffic (Vec doubling, error payloads, dependency Strings) is measured, not proved."),
+ "C08": ("Theorems C08_accepted_request_line_within_limit, C08_accepted_within_max (count computed without wrap-around), C08_declared_length_cannot_bypass (any declared length up to "
+         "2^64-1), C08_need_more_only_within_max (under every delivery schedule, consumed + pending <= max whenever more input is requested), "
+         "C08_none_disables_only_request_line_limit; defaults and exact boundary behaviour as Examples; never-rejected-for-size within limits follows from C03_accept_complete whose grammar "
+         "carries the limits. Correspondence: limits swept -2..+2 around the measured element lengths, both build profiles.",
+         "Known finding K1 (rhymessage does not limit folded continuation lines) is stated as an Example and reported as KNOWN-FINDING; header-line limit theorems are inside C03's grammar (first lines + empty line)."),
  "C09": ("Theorems C09_request_suffix / C09_request_local / C09_response_suffix / C09_request_pipeline / C09_response_pipeline: a Complete answer is "
          "unchanged by any appended bytes, depends only on the consumed bytes, and a concatenation of messages is split by fresh parsers at the "
-         "message lengths (responses: by the boundary). Corollaries of the resumption and locality lemmas, induction on the number of messages.",
-         ""),
+         "message lengths (responses: by the boundary). Corollaries of the resumption and locality lemmas, induction on the number of messages.", ""),
+ "C10": ("Theorems C10_request_roundtrip / C10_response_roundtrip / C10_generated_is_grammatical: for every well-formed value (WfRequest / WfResponse, pinned in the file) the generated "
+         "bytes are accepted as one message consuming every byte, the parsed value equals the original, and regenerating gives the same bytes; proved from grammar completeness, "
+         "parse_dec (show_dec n) = n, and trimming lemmas.",
+         "Relative to the per-target premise uri_ok (rhymuri: Display then parse is the identity, displayed text is graphic ASCII), checked for every generated target by the run; K2 is where it fails. Header folding on generate is not modelled (values needing folding are outside the statement)."),
+ "C11": ("Theorems C11_request_reserialise, C11_parsed_headers_wellformed, C11_accepted_response_value, C11_response_reserialise: an accepted request (graphic method, uri_ok target, "
+         "re-serialised lines within limits) and an accepted Content-Length/body-less response re-serialise to a message that parses to the same value; for chunked responses the "
+         "parsed value is identified as the C12 rewriting and the round trip is proved under the premise that it is well-formed (Example C11_chunked_example; every case of the run does parse->generate->parse on both sides).",
+         "PARTIAL: methods with non-graphic bytes and the well-formedness of the rewritten chunked header list are premises, not conclusions. Known findings K2, K3 (rhymuri)."),
+ "C12": ("Theorems C12_content_length (single value = decoded body length), C12_transfer_encoding (final coding removed, the others kept in order in one header joined by ', ', "
+         "no header when none remain), C12_no_trailer_header, C12_other_headers (originals then non-framing trailer fields, order and values kept), C12_trailer_framing_fields_ignored, "
+         "C12_parser_stores_rewrite; list lemmas over the header-collection model (Proofs/HeaderAlgebra.v).",
+         "set_header's in-place algorithm in rhymessage is modelled at specification level (first match keeps its position and name); the run compares the final header list order-sensitively."),
+ "C13": ("Theorem C13_decode_inverts_every_stack: for every stack over {gzip, zlib-deflate, raw-deflate} and every spelling the crate's tokeniser maps to those names, decode_body "
+         "returns the original, given three stated facts about flate2 (each decoder inverts its encoders; zlib streams start with a valid zlib header; encoder-produced raw streams do not). "
+         "Induction on the coding list. The flate2 facts are sampled: levels 0-9, empty/tiny/random/repetitive bodies up to 1.1 MB, depth <= 3, gzip header options.", "inflate is an oracle."),
+ "C14": ("Theorems C14_success (kept ++ undone split of the token list, body = undo of exactly the undone suffix, one Content-Encoding header with the kept tokens joined by ', ' or none, "
+         "single Content-Length = |body|, all other headers unchanged in order), C14_failure_atomic, C14_succeeds_when_undoable; for every behaviour of the three decoders (parameters).", ""),
+ "C15": ("Theorems C15_outer_decoder_error_is_failure, C15_truncation_fails, C15_success_is_full_decoder_output, C15_zlib_never_falls_back: the crate's glue cannot bypass the containers' "
+         "checks. The integrity checks themselves are flate2's: sampled by every truncation point, every byte of signature / CRC-32 / ISIZE / Adler-32 substituted, bit flips.",
+         "PARTIAL: 'flate2 rejects every truncation / altered integrity field' are hypotheses of the theorems, not proved."),
+ "C16": ("Theorems C16_text_only_for_text_types, C16_nothing_without_content_type / _for_non_text / _for_unknown_charset, C16_utf8_exact (utf8_decode succeeds iff valid and then "
+         "re-encoding gives the body: no replacement character, BOM kept), C16_iso_8859_1_total (one character per byte, ASCII fixed). The two concrete decoders are compared with encoding_rs "
+         "exhaustively for 0-1 (quick) / 0-2 (thorough) byte bodies and structurally for multi-byte sequences.", "for_label and the other encodings are an oracle."),
  "C17": ("Theorems C17_decimal_exact / C17_hex_exact (the crate's field parsers accept exactly 1*DIGIT / 1*HEXDIG fitting usize), "
          "C17_request_content_length (any accepted request under any delivery schedule: Content-Length value is digits only), C17_status_code, "
          "C17_chunk_size, C17_response_content_length, and C17_std_parser_extra (what the pre-fix std parsers accepted in addition: exactly a leading '+'). "
-         "Correspondence: exhaustive short strings over a 16-symbol alphabet in each of the four fields plus inserted non-digits.",
-         ""),
+         "Correspondence: exhaustive short strings over a 16-symbol alphabet plus every single byte value in each of the fields, inserted non-digits, repeated Content-Length under deliveries.", ""),
+ "C18": ("Theorems C18_lookups_ignore_case, C18_response_framing_ignores_case + C18_resp_headers_uses_framing, C18_request_framing_ignores_case, C18_decode_body_ignores_case, "
+         "C18_decode_text_ignores_case: over header lists equal up to ASCII case of names and values, every lookup, the framing decision, the decoded body and the decoded text are equal.",
+         "Stated over header lists (the block parser stores names and values verbatim); that case variants of the message bytes give case-variant lists is checked by the run, not proved. encoding_rs's label lookup being case-insensitive is a hypothesis."),
 }
 
 DEFAULT_TEXT = "see DESIGN.md section 6"
